@@ -1,7 +1,249 @@
-/- C01 — property theorems (only). -/
-import XsdataModel.Bind.Write
+/- C01 — property theorems (only).
+
+XML round trip at the binding layer: `EventGenerator.generate`, the abstract
+writer (events → SAX calls → ElementTree infoset, `Bind/Write.lean`) and
+`NodeParser` compose to the identity on fragment F1 (`Bind/F1.lean`).
+
+* `bind_generate_F1` (= `bind_generate_partial`) : the round trip, for every
+  F1 universe, every F1 instance, both settings of `ignoreDefaultAttributes`,
+  all 8 parser configurations, every `Env`; no converter warning is issued.
+* `bind_generate_anyInstance` / `bind_generate_anyNamespaces` : the full-strength
+  statements (without the value-level exclusions / without the namespace
+  agreement condition) are false of the model; each excluded region has a concrete
+  witness that is replayed on the real code (`known_findings.json`).
+-/
+import XsdataModel.Proofs.C01Main
 
 namespace Props.C01
-open Py Xs.Bind
+open Py Xs.Bind Xs.Bind.F1
+
+/-! ### the round trip on fragment F1 -/
+
+/-- **C01, fragment F1.**  For a universe `Γ` in fragment F1 and an instance `v` of class `c`
+in fragment F1: the event generator succeeds, the abstract writer turns its events into one
+document tree, and parsing that tree into class `c` gives back `v` with no warning. -/
+theorem bind_generate_F1 (e : BEnv) (Γ : Ctx) (cfg : SerCfg) (pcfg : ParserConfig) (c : ClassId) (v : Val)
+    (hΓ : ctxF1 Γ = true) (hv : valF1 e Γ c v = true) :
+    ∃ evs t, generate e Γ cfg v = .ok evs ∧ eventsTree (isDatatype Γ) evs = .ok t ∧
+      parseRoot e Γ pcfg c t = .ok (v, 0) :=
+  Proofs.C01.roundtrip_F1 e Γ cfg pcfg c v hΓ hv
+
+/-! #### a concrete universe and instance satisfying the hypotheses -/
+
+def s (x : String) : Str := x.toList
+
+/-- a var with the flags every var of the fragment has -/
+def mkVar (index : Nat) (name qname : String) (kind : VarKind) (types : List TypeRef)
+    (clazz : Option ClassId := none) (required : Bool := false) (listElement : Bool := false)
+    (default : DefaultV := .none) (namespaces : List Str := []) : XmlVar :=
+  { index := index, name := s name, localName := s name, qname := s qname, wrapperQName := none,
+    types := types, clazz := clazz, init := true, mixed := false, tokens := false, format := none,
+    anyType := false, processContents := s "strict", required := required, nillable := false,
+    sequence := none, listElement := listElement, default := default, namespaces := namespaces,
+    kind := kind, isClazzUnion := false, elements := [], wildcards := [] }
+
+def mkMeta (clazz qname : String) (text : Option XmlVar) (elements attributes : List XmlVar) : XmlMeta :=
+  { clazz := s clazz, qname := s qname, targetQName := some (s qname), nillable := false,
+    text := text, choices := [], elements := elements.map (fun v => (v.qname, [v])), wildcards := [],
+    attributes := attributes.map (fun v => (v.qname, v)), anyAttributes := [], wrappers := [] }
+
+def e0 : BEnv := ⟨Env.ascii, fun _ => true, fun _ => true⟩
+
+def xsString : String := "{http://www.w3.org/2001/XMLSchema}string"
+
+def leafId : XmlVar := mkVar 1 "id" "id" .attribute [.prim .int] (required := true)
+def leafText : XmlVar := mkVar 2 "value" "value" .text [.prim .str] (default := .val (.str []))
+def leafMeta (q : String) : XmlMeta := mkMeta "Leaf" q (some leafText) [] [leafId]
+
+def leafInfo : ClassInfo :=
+  { id := s "Leaf", metas := [(none, leafMeta "Leaf"), (some (s "urn:a"), leafMeta "{urn:a}Leaf")],
+    mro := [s "Leaf"], bases := [],
+    fields := [⟨s "id", true, none⟩, ⟨s "value", true, some (.prim (.str []))⟩] }
+
+def rootLang : XmlVar := mkVar 1 "lang" "lang" .attribute [.prim .str]
+def rootN : XmlVar := mkVar 2 "n" "n" .attribute [.prim .int] (default := .val (.int 7))
+def rootTitle : XmlVar := mkVar 3 "title" "{urn:a}title" .element [.prim .str] (required := true)
+  (namespaces := [s "urn:a"])
+def rootTags : XmlVar := mkVar 4 "tags" "{urn:a}tags" .element [.prim .int] (listElement := true)
+  (default := .listFactory) (namespaces := [s "urn:a"])
+def rootItem : XmlVar := mkVar 5 "item" "{urn:a}item" .element [.cls (s "Leaf")]
+  (clazz := some (s "Leaf")) (listElement := true) (default := .listFactory) (namespaces := [s "urn:a"])
+def rootOpt : XmlVar := mkVar 6 "opt" "{urn:a}opt" .element [.cls (s "Leaf")]
+  (clazz := some (s "Leaf")) (namespaces := [s "urn:a"])
+def rootFlag : XmlVar := mkVar 7 "flag" "flag" .element [.prim .bool] (default := .val (.bool true))
+
+def rootMeta : XmlMeta :=
+  mkMeta "Root" "{urn:a}Root" none [rootTitle, rootTags, rootItem, rootOpt, rootFlag] [rootLang, rootN]
+
+def rootInfo : ClassInfo :=
+  { id := s "Root", metas := [(none, rootMeta), (some (s "urn:a"), rootMeta)], mro := [s "Root"],
+    bases := [],
+    fields := [⟨s "title", true, none⟩, ⟨s "lang", true, some .none⟩, ⟨s "n", true, some (.prim (.int 7))⟩,
+      ⟨s "tags", true, some (.list [])⟩, ⟨s "item", true, some (.list [])⟩, ⟨s "opt", true, some .none⟩,
+      ⟨s "flag", true, some (.prim (.bool true))⟩] }
+
+/-- a two-class universe: `Root` (namespace `urn:a`: two attributes, a required `str` element, a
+list of `int` elements, a list of `Leaf` and an optional `Leaf`, a `bool` element in no namespace
+with a default) and `Leaf` (no namespace of its own: a required `int` attribute and a text var) -/
+def Γ2 : Ctx :=
+  { classes := [leafInfo, rootInfo], xsiIndex := [], datatypes := [(s xsString, some .str)] }
+
+def leafVal (i : Int) (t : String) : Val :=
+  .obj (s "Leaf") [(s "id", .prim (.int i)), (s "value", .prim (.str (s t)))]
+
+def v2 : Val := .obj (s "Root")
+  [(s "title", .prim (.str [])), (s "lang", .prim (.str (s "{en}"))), (s "n", .prim (.int 7)),
+   (s "tags", .list [.prim (.int 1), .prim (.int (-20))]),
+   (s "item", .list [leafVal 1 " x y ", leafVal (-2) ""]), (s "opt", .none),
+   (s "flag", .prim (.bool false))]
+
+example : ctxF1 Γ2 = true := by decide
+example : valF1 e0 Γ2 (s "Root") v2 = true := by decide
+
+/-- the theorem applied to the concrete instance, with default attributes suppressed and the
+strictest parser configuration -/
+example : ∃ evs t, generate e0 Γ2 ⟨true⟩ v2 = .ok evs ∧ eventsTree (isDatatype Γ2) evs = .ok t ∧
+    parseRoot e0 Γ2 ⟨true, true, true⟩ (s "Root") t = .ok (v2, 0) :=
+  bind_generate_F1 e0 Γ2 ⟨true⟩ ⟨true, true, true⟩ (s "Root") v2 (by decide) (by decide)
+
+/-- `bind_generate_partial`: the provable part of the full-strength statements below -/
+theorem bind_generate_partial (e : BEnv) (Γ : Ctx) (cfg : SerCfg) (pcfg : ParserConfig) (c : ClassId)
+    (v : Val) (hΓ : ctxF1G true Γ = true) (hv : valObjG true Γ v.size none c v = true) :
+    ∃ evs t, generate e Γ cfg v = .ok evs ∧ eventsTree (isDatatype Γ) evs = .ok t ∧
+      parseRoot e Γ pcfg c t = .ok (v, 0) :=
+  bind_generate_F1 e Γ cfg pcfg c v hΓ hv
+
+example : ctxF1G true Γ2 = true ∧ valObjG true Γ2 v2.size none (s "Root") v2 = true := by decide
+
+/-! ### full strength, values: false of the model (and of the code) -/
+
+/-- the round trip for every type-correct instance (`instF1`: like `valF1` without the three
+value-level exclusions) -/
+def bind_generate_anyInstance : Prop :=
+  ∀ (e : BEnv) (Γ : Ctx) (cfg : SerCfg) (pcfg : ParserConfig) (c : ClassId) (v : Val),
+    ctxF1 Γ = true → instF1 Γ c v = true →
+    ∃ evs t, generate e Γ cfg v = .ok evs ∧ eventsTree (isDatatype Γ) evs = .ok t ∧
+      parseRoot e Γ pcfg c t = .ok (v, 0)
+
+def rootOnly (elements attributes : List XmlVar) (text : Option XmlVar) (fields : List FieldInfo) : Ctx :=
+  { classes := [{ id := s "Root", metas := [(none, mkMeta "Root" "Root" text elements attributes)],
+                  mro := [s "Root"], bases := [], fields := fields }],
+    xsiIndex := [], datatypes := [(s xsString, some .str)] }
+
+def evsOf (Γ : Ctx) (v : Val) : List Ev :=
+  match generate e0 Γ {} v with
+  | .ok evs => evs
+  | .error _ => []
+
+def treeOf (Γ : Ctx) (v : Val) : Tree :=
+  match eventsTree (isDatatype Γ) (evsOf Γ v) with
+  | .ok t => t
+  | .error _ => .node [] [] [] none [] none
+
+/-- witness 1: `a: str = "ed"` as an element; the instance `Root(a="")` -/
+def Γw1 : Ctx := rootOnly [mkVar 1 "a" "a" .element [.prim .str] (default := .val (.str (s "ed")))] [] none
+  [⟨s "a", true, some (.prim (.str (s "ed")))⟩]
+def w1 : Val := .obj (s "Root") [(s "a", .prim (.str []))]
+
+/-- an empty `str` in an element whose field default is not `None` comes back as the default:
+`<a/>` has text `None`, and `ParserUtils.parse_value(None, …)` returns the var default -/
+theorem empty_str_default_witness :
+    ctxF1 Γw1 = true ∧ instF1 Γw1 (s "Root") w1 = true ∧
+    generate e0 Γw1 {} w1 = .ok (evsOf Γw1 w1) ∧
+    eventsTree (isDatatype Γw1) (evsOf Γw1 w1) = .ok (treeOf Γw1 w1) ∧
+    treeOf Γw1 w1 = .node (s "Root") [] [] none [.node (s "a") [] [] none [] none] none ∧
+    parseRoot e0 Γw1 {} (s "Root") (treeOf Γw1 w1) =
+      .ok (.obj (s "Root") [(s "a", .prim (.str (s "ed")))], 0) :=
+  ⟨by decide, by decide, rfl, rfl, rfl, rfl⟩
+
+/-- witness 2: `a: Optional[str] = None` as an attribute holding the Clark name of a builtin datatype -/
+def Γw2 : Ctx := rootOnly [] [mkVar 1 "a" "a" .attribute [.prim .str]] none [⟨s "a", true, some .none⟩]
+def w2 : Val := .obj (s "Root") [(s "a", .prim (.str (s xsString)))]
+
+/-- a `str` attribute value that names a builtin datatype in Clark notation is taken for a QName
+by the writer (`is_xsi_type`) and written as a prefixed name -/
+theorem attr_datatype_witness :
+    ctxF1 Γw2 = true ∧ instF1 Γw2 (s "Root") w2 = true ∧
+    generate e0 Γw2 {} w2 = .ok (evsOf Γw2 w2) ∧
+    eventsTree (isDatatype Γw2) (evsOf Γw2 w2) = .ok (treeOf Γw2 w2) ∧
+    parseRoot e0 Γw2 {} (s "Root") (treeOf Γw2 w2) =
+      .ok (.obj (s "Root") [(s "a", .prim (.str (s "string")))], 0) :=
+  ⟨by decide, by decide, rfl, rfl, rfl⟩
+
+/-- witness 3: a text var `value: Optional[str] = None` holding `""` -/
+def Γw3 : Ctx := rootOnly [] [] (some (mkVar 1 "value" "value" .text [.prim .str]))
+  [⟨s "value", true, some .none⟩]
+def w3 : Val := .obj (s "Root") [(s "value", .prim (.str []))]
+
+/-- an empty text comes back as the field default (`None`): XML cannot tell them apart -/
+theorem empty_text_witness :
+    ctxF1 Γw3 = true ∧ instF1 Γw3 (s "Root") w3 = true ∧
+    generate e0 Γw3 {} w3 = .ok (evsOf Γw3 w3) ∧
+    eventsTree (isDatatype Γw3) (evsOf Γw3 w3) = .ok (treeOf Γw3 w3) ∧
+    parseRoot e0 Γw3 {} (s "Root") (treeOf Γw3 w3) = .ok (.obj (s "Root") [(s "value", .none)], 0) :=
+  ⟨by decide, by decide, rfl, rfl, rfl⟩
+
+theorem bind_generate_anyInstance_false : ¬ bind_generate_anyInstance := by
+  intro h
+  obtain ⟨h1, h2, hg, ht, _, hp⟩ := empty_str_default_witness
+  obtain ⟨evs, t, hg', ht', hp'⟩ := h e0 Γw1 {} {} (s "Root") w1 h1 h2
+  rw [hg] at hg'; cases hg'
+  rw [ht] at ht'; cases ht'
+  rw [hp] at hp'
+  simp [w1, s] at hp'
+
+/-! ### full strength, namespaces: false of the model (and of the code) -/
+
+/-- the round trip for every universe of the fragment's shape, without the requirement that the
+serializer and the parser look up the same metadata for grandchildren (`nsAgree`) -/
+def bind_generate_anyNamespaces : Prop :=
+  ∀ (e : BEnv) (Γ : Ctx) (cfg : SerCfg) (pcfg : ParserConfig) (c : ClassId) (v : Val),
+    ctxF1G false Γ = true → valF1 e Γ c v = true →
+    ∃ evs t, generate e Γ cfg v = .ok evs ∧ eventsTree (isDatatype Γ) evs = .ok t ∧
+      parseRoot e Γ pcfg c t = .ok (v, 0)
+
+def w4Z (q : String) : XmlVar := mkVar 1 "z" q .element [.prim .str]
+def w4LeafInfo : ClassInfo :=
+  { id := s "Leaf",
+    metas := [(none, mkMeta "Leaf" "Leaf" none [w4Z "z"] []),
+              (some (s "urn:a"), mkMeta "Leaf" "{urn:a}Leaf" none [w4Z "{urn:a}z"] []),
+              (some (s "urn:b"), mkMeta "Leaf" "{urn:b}Leaf" none [w4Z "{urn:b}z"] [])],
+    mro := [s "Leaf"], bases := [], fields := [⟨s "z", true, some .none⟩] }
+def w4Y : XmlVar := mkVar 1 "y" "{urn:b}y" .element [.cls (s "Leaf")] (clazz := some (s "Leaf"))
+def w4MidMeta : XmlMeta := mkMeta "Mid" "{urn:b}Mid" none [w4Y] []
+def w4MidInfo : ClassInfo :=
+  { id := s "Mid", metas := [(none, w4MidMeta), (some (s "urn:a"), w4MidMeta), (some (s "urn:b"), w4MidMeta)],
+    mro := [s "Mid"], bases := [], fields := [⟨s "y", true, some .none⟩] }
+def w4X : XmlVar := mkVar 1 "x" "{urn:a}x" .element [.cls (s "Mid")] (clazz := some (s "Mid"))
+def w4RootMeta : XmlMeta := mkMeta "Root" "{urn:a}Root" none [w4X] []
+def w4RootInfo : ClassInfo :=
+  { id := s "Root", metas := [(none, w4RootMeta), (some (s "urn:a"), w4RootMeta), (some (s "urn:b"), w4RootMeta)],
+    mro := [s "Root"], bases := [], fields := [⟨s "x", true, some .none⟩] }
+
+/-- witness 4: `Root` (namespace `urn:a`) → `x: Mid` (namespace `urn:b`) → `y: Leaf` (no namespace of
+its own) → `z: str` -/
+def Γw4 : Ctx := { classes := [w4LeafInfo, w4MidInfo, w4RootInfo], xsiIndex := [], datatypes := [] }
+def w4 : Val := .obj (s "Root") [(s "x", .obj (s "Mid") [(s "y", .obj (s "Leaf") [(s "z", .prim (.str (s "t")))])])]
+
+/-- the serializer builds `Leaf` under the namespace of the element `x` (`urn:a`, the namespace of
+`Root`), the parser under the namespace of the class `Mid` (`urn:b`): `z` is written as `{urn:a}z`
+and looked up as `{urn:b}z` -/
+theorem ns_chain_witness :
+    ctxF1G false Γw4 = true ∧ ctxF1 Γw4 = false ∧ valF1 e0 Γw4 (s "Root") w4 = true ∧
+    generate e0 Γw4 {} w4 = .ok (evsOf Γw4 w4) ∧
+    eventsTree (isDatatype Γw4) (evsOf Γw4 w4) = .ok (treeOf Γw4 w4) ∧
+    treeOf Γw4 w4 = .node (s "{urn:a}Root") [] [] none [.node (s "{urn:a}x") [] [] none
+      [.node (s "{urn:b}y") [] [] none [.node (s "{urn:a}z") [] [] (some (s "t")) [] none] none] none] none ∧
+    parseRoot e0 Γw4 {} (s "Root") (treeOf Γw4 w4) = .error (.parser "Unknown property") :=
+  ⟨by decide, by decide, by decide, rfl, rfl, rfl, rfl⟩
+
+theorem bind_generate_anyNamespaces_false : ¬ bind_generate_anyNamespaces := by
+  intro h
+  obtain ⟨h1, _, h2, hg, ht, _, hp⟩ := ns_chain_witness
+  obtain ⟨evs, t, hg', ht', hp'⟩ := h e0 Γw4 {} {} (s "Root") w4 h1 h2
+  rw [hg] at hg'; cases hg'
+  rw [ht] at ht'; cases ht'
+  rw [hp] at hp'
+  cases hp'
 
 end Props.C01
